@@ -10,7 +10,15 @@ import (
 // SplitMix is the single PRNG every random choice of the harness derives from.
 type SplitMix struct{ s uint64 }
 
-func NewSplitMix(seed uint64) *SplitMix { return &SplitMix{seed*0x9E3779B97F4A7C15 + 0x1234567} }
+func NewSplitMix(seed uint64) *SplitMix {
+	// scramble the seed with the splitmix finaliser so that streams of consecutive seeds are
+	// unrelated (a plain affine seed would make seed k+1 the stream of seed k shifted by one draw)
+	z := seed + 0x1234567
+	z = (z ^ (z >> 30)) * 0xBF58476D1CE4E5B9
+	z = (z ^ (z >> 27)) * 0x94D049BB133111EB
+	z ^= z >> 31
+	return &SplitMix{z}
+}
 
 func (r *SplitMix) U64() uint64 {
 	r.s += 0x9E3779B97F4A7C15
